@@ -284,7 +284,7 @@ Definition build (c : cfg) (is_ : smap ingress) (vss : smap vserver) (rs : smap 
 (* ---------- IsEqual ---------- *)
 
 Definition meta_eq (a b : meta) : bool :=
-  String.eqb (m_ns a) (m_ns b) && String.eqb (m_name a) (m_name b) && (m_gen a =? m_gen b).
+  String.eqb (m_ns a) (m_ns b) && String.eqb (m_name a) (m_name b) && String.eqb (m_uid a) (m_uid b) && (m_gen a =? m_gen b).
 Definition meta_eq_ann (a b : meta) : bool := meta_eq a b && (m_ann a =? m_ann b).
 
 Fixpoint all2 {A} (f : A -> A -> bool) (l1 l2 : list A) : bool :=
@@ -308,7 +308,8 @@ Definition is_equal (a b : resource) : bool :=
       meta_eq (v_meta (vc_vs x)) (v_meta (vc_vs y)) &&
       all2 (fun m n => meta_eq (r_meta m) (r_meta n)) (vc_vsrs x) (vc_vsrs y)
   | RTS x, RTS y =>
-      meta_eq (t_meta (tc_ts x)) (t_meta (tc_ts y)) && (tc_port x =? tc_port y)
+      meta_eq (t_meta (tc_ts x)) (t_meta (tc_ts y)) && (tc_port x =? tc_port y) &&
+      String.eqb (tc_ipv4 x) (tc_ipv4 y) && String.eqb (tc_ipv6 x) (tc_ipv6 y)
   | _, _ => false
   end.
 
@@ -330,7 +331,9 @@ Definition updated_hosts (old new : smap resource) : list string :=
              | RVS n, RVS o =>
                  (if negb (vc_http_port n =? vc_http_port o) || negb (vc_https_port n =? vc_https_port o) then [h] else []) +++
                  (if negb (String.eqb (vc_http4 n) (vc_http4 o)) then [h] else []) +++
-                 (if negb (String.eqb (vc_http6 n) (vc_http6 o)) then [h] else [])
+                 (if negb (String.eqb (vc_http6 n) (vc_http6 o)) then [h] else []) +++
+                 (if negb (String.eqb (vc_https4 n) (vc_https4 o)) then [h] else []) +++
+                 (if negb (String.eqb (vc_https6 n) (vc_https6 o)) then [h] else [])
              | _, _ => []
              end
     end) new.
@@ -538,15 +541,20 @@ Definition with_validation_error (invalid : bool) (k : string) (out : state * li
     end
   else out.
 
+(* orderDeletesFirst: stable partition, deletes before addOrUpdates *)
+Definition is_delete (c : change) : bool := match c_op c with Delete => true | AddOrUpdate => false end.
+Definition order_deletes_first (cs : list change) : list change :=
+  filter is_delete cs +++ filter (fun c => negb (is_delete c)) cs.
+
 Definition rebuild_ts (c : cfg) (s : state) : state * list change * list problem :=
   let '(s1, c1, p1) := rebuild_listeners s in
   if tls_passthrough c then
-    let '(s2, c2, p2) := rebuild_hosts c s1 in (s2, c1 +++ c2, p1 +++ p2)
+    let '(s2, c2, p2) := rebuild_hosts c s1 in (s2, order_deletes_first (c1 +++ c2), p1 +++ p2)
   else (s1, c1, p1).
 
 Definition rebuild_gc (c : cfg) (s : state) : state * list change * list problem :=
   let '(s1, c1, p1) := rebuild_listeners s in
-  let '(s2, c2, p2) := rebuild_hosts c s1 in (s2, c1 +++ c2, p1 +++ p2).
+  let '(s2, c2, p2) := rebuild_hosts c s1 in (s2, order_deletes_first (c1 +++ c2), p1 +++ p2).
 
 Definition step (c : cfg) (s : state) (e : event) : state * list change * list problem :=
   match e with
